@@ -147,3 +147,69 @@ impl MockIdentity {
 
 #[allow(dead_code)]
 fn _unused(_: MuxedAddress) {}
+
+// ---------------- the library's own modular compliance dispatcher, with instrumented modules ----------------
+use stellar_tokens::rwa::compliance::storage as cstore;
+use stellar_tokens::rwa::compliance::ComplianceHook;
+use stellar_tokens::rwa::utils::token_binder::bind_token;
+
+#[contract]
+pub struct RealCompliance;
+
+#[contractimpl]
+impl RealCompliance {
+    pub fn bind(e: &Env, token: Address) {
+        bind_token(e, &token)
+    }
+    pub fn add_module_to(e: &Env, hook: ComplianceHook, module: Address) {
+        cstore::add_module_to(e, hook, module)
+    }
+    pub fn remove_module_from(e: &Env, hook: ComplianceHook, module: Address) {
+        cstore::remove_module_from(e, hook, module)
+    }
+    pub fn transferred(e: &Env, from: Address, to: Address, amount: i128, token: Address) {
+        cstore::transferred(e, from, to, amount, token)
+    }
+    pub fn created(e: &Env, to: Address, amount: i128, token: Address) {
+        cstore::created(e, to, amount, token)
+    }
+    pub fn destroyed(e: &Env, from: Address, amount: i128, token: Address) {
+        cstore::destroyed(e, from, amount, token)
+    }
+    pub fn can_transfer(e: &Env, from: Address, to: Address, amount: i128, token: Address) -> bool {
+        cstore::can_transfer(e, from, to, amount, token)
+    }
+    pub fn can_create(e: &Env, to: Address, amount: i128, token: Address) -> bool {
+        cstore::can_create(e, to, amount, token)
+    }
+}
+
+/// A compliance module whose verdicts are scripted and whose state-changing hooks are logged.
+#[contract]
+pub struct MockModule;
+
+#[contractimpl]
+impl MockModule {
+    pub fn set_flags(e: &Env, deny_transfer: bool, deny_create: bool) {
+        e.storage().persistent().set(&CKey::DenyTransfer, &deny_transfer);
+        e.storage().persistent().set(&CKey::DenyCreate, &deny_create);
+    }
+    pub fn log(e: &Env) -> Vec<HookCall> {
+        e.storage().persistent().get(&CKey::Log).unwrap_or(Vec::new(e))
+    }
+    pub fn on_transfer(e: &Env, from: Address, to: Address, amount: i128, token: Address) {
+        clog(e, HookCall { kind: 0, a: from, b: to, amount, token });
+    }
+    pub fn on_created(e: &Env, to: Address, amount: i128, token: Address) {
+        clog(e, HookCall { kind: 1, a: to.clone(), b: to, amount, token });
+    }
+    pub fn on_destroyed(e: &Env, from: Address, amount: i128, token: Address) {
+        clog(e, HookCall { kind: 2, a: from.clone(), b: from, amount, token });
+    }
+    pub fn can_transfer(e: &Env, _from: Address, _to: Address, _amount: i128, _token: Address) -> bool {
+        !e.storage().persistent().get(&CKey::DenyTransfer).unwrap_or(false)
+    }
+    pub fn can_create(e: &Env, _to: Address, _amount: i128, _token: Address) -> bool {
+        !e.storage().persistent().get(&CKey::DenyCreate).unwrap_or(false)
+    }
+}
